@@ -185,6 +185,10 @@ C08_ReqAccount == IsReq /\ Consistent(RPre.c) => Consistent(RPost2.c)
 C08_Resumable  == IsReq /\ Ev.mode = "P" /\ Ev.panic = "" /\ Ev.fpanic = "" /\ ~(Ev.fresh /\ Ev.incls = "long") =>
                      ~Ev.finerr /\ Ev.havesave
 
+\* a request that is refused (bad format, over-long) leaves the session able to continue: the code that was pending is still pending
+C08_RefusedContinuable == IsReq /\ Refused /\ ~Ev.cfg.first /\ Ev.mode \in {"L", "P"} /\ Ev.panic = "" /\ Ev.fpanic = "" /\ RPre.code # <<>> =>
+                     /\ RPost.code = RPre.code /\ RPost2.code = RPre.code /\ NavProj(RPost2) = NavProj(RPre)
+
 \* ---- C07: saving and loading changes nothing a later request can observe
 \* (Finish writes the session only if the engine object got through init: not after a refused first input, or a pre-VM check that stopped the request)
 C07_Snapshot == IsReq /\ Ev.mode = "P" /\ Ev.havesave /\ Ev.initd /\ Ev.panic = "" /\ Ev.fpanic = "" =>
